@@ -9,6 +9,7 @@ package main
 import (
 	"fmt"
 	"math/rand/v2"
+	"os"
 	"strings"
 
 	"github.com/elk-language/elk"
@@ -131,6 +132,9 @@ var checkerSnippets = append([]string{
 }, srcSnippets...)
 
 func c03Guard(c *Ctx, caseIdx int, phase, input string, f func()) {
+	if os.Getenv("VERIF_PRINT") != "" { // diagnosis aid: the input of a case that hangs or kills the process
+		fmt.Fprintf(os.Stderr, "---- case %d (%s)\n%s\n----\n", caseIdx, phase, input)
+	}
 	defer func() {
 		if r := recover(); r != nil {
 			msg := fmt.Sprint(r)
